@@ -714,6 +714,20 @@ fn tar_header(name: &str, size: usize, typeflag: u8, gnu: bool) -> Vec<u8> {
 	h
 }
 
+/// header of a link member (typeflag b'2' symbolic, b'1' hard) pointing to `linkname`
+pub fn tar_link_header(name: &str, linkname: &str, typeflag: u8) -> Vec<u8> {
+	let mut h = tar_header(name, 0, typeflag, false);
+	let lb = linkname.as_bytes();
+	assert!(lb.len() <= 100);
+	h[157..157 + lb.len()].copy_from_slice(lb);
+	for b in &mut h[148..156] {
+		*b = b' ';
+	}
+	let sum: u32 = h.iter().map(|b| *b as u32).sum();
+	h[148..156].copy_from_slice(format!("{sum:06o}\0 ").as_bytes());
+	h
+}
+
 #[derive(Debug, Clone, Copy, PartialEq, Eq, serde::Serialize, serde::Deserialize)]
 pub struct TarLayout {
 	pub dot_prefix: bool,
